@@ -155,6 +155,18 @@ def tree_link_rule(ctx, w):
                     par.append(last)
         if not rem and not ins:
             continue
+        if not par:
+            # the link write may sit in a helper of the module (`fn set_parent(&self, ..)`): follow direct calls one level
+            for body in M.all_bodies(g):
+                for _, c in M.calls(body):
+                    cn = M.callee_name(c)
+                    if "ruma_html::html::" in cn:
+                        for h in w.fn_index.get(cn, []):
+                            for hb in (M.all_bodies(h) if "body" in h else []):
+                                for _, c2 in M.calls(hb):
+                                    fa2 = " ".join(c2.get("fnargs") or [])
+                                    if "Option<alloc::rc::Weak<ruma_html::html::Node>>" in fa2 and M.callee_name(c2).rsplit("::", 1)[-1] in ("take", "replace", "set", "swap"):
+                                        par.append("via " + cn.rsplit("::", 1)[-1])
         n += 1
         key = PC.key_path(g["path"])
         ctx.check(bool(par), rule, f"{rule}:{key}", w.where(g),
